@@ -1247,25 +1247,27 @@ class HeapExec(DynExec):
                     and not self.is_tokens_list(s, it):
                 # a local list with known elements (e.g. the (condition, value) pairs returned by get_cases on a known
                 # shape): element-wise, in order; the target may be a tuple pattern
-                vals = []
-                cur = s
-                saved_env = dict(cur.env)
+                saved_env = dict(s.env)
+                work = [(s, [])]        # (state, values so far): an element that forks multiplies the paths
                 for x in [e[1] for e in s.lists[it.lid]]:
-                    bound = self.assign(g.target, x, cur)
-                    if len(bound) != 1:
-                        raise OutsideSubset('forking list comprehension target')
-                    rr = self.eval(node.elt, bound[0])
-                    if len(rr) != 1:
-                        raise OutsideSubset('forking list comprehension element')
-                    cur = rr[0][0]
-                    vals.append(rr[0][1])
-                for n in ast.walk(g.target):
-                    if isinstance(n, ast.Name):
-                        if n.id in saved_env:
-                            cur.env[n.id] = saved_env[n.id]
-                        else:
-                            cur.env.pop(n.id, None)
-                out.append((cur, self.new_list(cur, [('el', v) for v in vals])))
+                    nxt = []
+                    for cur, vals in work:
+                        bound = self.assign(g.target, x, cur)
+                        if len(bound) != 1:
+                            raise OutsideSubset('forking list comprehension target')
+                        for s_r, v_r in self.eval(node.elt, bound[0]):
+                            nxt.append((s_r, vals + [v_r]))
+                    if len(nxt) > 64:
+                        raise OutsideSubset('list comprehension with more than 64 paths')
+                    work = nxt
+                for cur, vals in work:
+                    for n in ast.walk(g.target):
+                        if isinstance(n, ast.Name):
+                            if n.id in saved_env:
+                                cur.env[n.id] = saved_env[n.id]
+                            else:
+                                cur.env.pop(n.id, None)
+                    out.append((cur, self.new_list(cur, [('el', v) for v in vals])))
                 continue
             if isinstance(it, (tuple, list)) and not self.W.is_tt(it) and isinstance(g.target, ast.Name):
                 # [expr for x in <concrete sequence>]: evaluate element-wise (late binding: each closure captures the
